@@ -17,7 +17,8 @@ RULE = (
     "mapping, x daughter lists reversed. Hypothesis: chains with <=8 decaying particles over real EvtGen names and synthetic "
     "names with balanced parentheses, and a family of patterns {mother} ARROW {daughters} / OPEN{mother} ARROW {daughters}CLOSE "
     "with ARROW in {->, -->, =>, unicode arrow}, brackets in {(), [], {{}}, <>} plus the documented '{mother} (=> {daughters})' "
-    "style. Oracle: a bracket-matching reader reproduces mother, nesting and daughter multisets at every level; the string is "
+    "style and patterns with runs of blanks/tabs/newlines (compared with a reference renderer); the same chain object is rendered under "
+    "several formats in turn. Oracle: a bracket-matching reader reproduces mother, nesting and daughter multisets at every level; the string is "
     "identical for every order of daughters and sub-decays; under DescriptorFormat(p1,p2) p1 is used at depth 0 and p2 at "
     "every depth >=1. Non-trivial: (nesting depth >=2 or a repeated decaying daughter) and >=1 name containing '('."
 )
@@ -27,15 +28,28 @@ ARROWS = ("->", "-->", "=>", "→")
 BRACKETS = (("(", ")"), ("[", "]"), ("{", "}"), ("<", ">"))
 
 
-def to_string(case, patterns=None):
+def to_string(case, patterns=None, dc=None):
+    """Render; with `dc` the same chain object is rendered again (nothing may be remembered from earlier renderings)."""
     from decaylanguage.utils import DescriptorFormat
 
     with impl(ID, "to_string"):
-        dc = C.build_chain(case)
+        if dc is None:
+            dc = C.build_chain(case)
         if patterns is None:
             return dc.to_string()
         with DescriptorFormat(patterns[0], patterns[1]):
             return dc.to_string()
+
+
+def ref_render(tree, p1, p2, top=True):
+    """Reference renderer: str.format of the patterns, daughters (rendered sub-decays included) in sorted order."""
+    m, ch = tree
+    parts = sorted(c if isinstance(c, str) else ref_render(c, p1, p2, False) for c in ch)
+    return (p1 if top else p2).format(mother=m, daughters=" ".join(parts))
+
+
+WS_PATTERNS = (("{mother}  -->  {daughters}", "[ {mother} -> {daughters} ]"), (" {mother} -> {daughters} ", "({mother}\t->\t{daughters})"),
+               ("{mother} ->   {daughters}", "(  {mother} -> {daughters})"), ("{mother}\n-> {daughters}", "({mother} ->  {daughters}  )"))
 
 
 def read_postfix(s, arrow, sub_arrow):
@@ -88,11 +102,22 @@ def check_case(case, rec):
         raise Mismatch("C13:order-dependent", "descriptor differs when daughters / sub-decays are supplied in another order", s, s2)
     pat = case.get("patterns")
     classes = []
+    with impl(ID, "build"):
+        dc_same = C.build_chain(c)
+    if to_string(c, None, dc_same) != s:
+        raise Mismatch("C13:unstable", "two chains built from the same input render differently", s, to_string(c, None, dc_same))
+    if case.get("ws") is not None:
+        p1, p2 = WS_PATTERNS[case["ws"] % len(WS_PATTERNS)]
+        got_ws = to_string(c, (p1, p2), dc_same)
+        want_ws = ref_render(want, p1, p2)
+        if got_ws != want_ws:
+            raise Mismatch("C13:pattern-not-followed", f"patterns {p1!r}, {p2!r}", want_ws, got_ws)
+        classes.append("whitespace-rich-patterns")
     if pat:
         kind = pat["kind"]
         if kind == "postfix":
             p1, p2 = "{mother} " + pat["a1"] + " {daughters}", "{mother} (" + pat["a2"] + " {daughters})"
-            s3 = to_string(c, (p1, p2))
+            s3 = to_string(c, (p1, p2), dc_same)
             try:
                 got = read_postfix(s3, pat["a1"], pat["a2"])
             except C.DescriptorError as e:
@@ -102,14 +127,14 @@ def check_case(case, rec):
             esc = lambda x: x.replace("{", "{{").replace("}", "}}")
             p1 = "{mother} " + pat["a1"] + " {daughters}"
             p2 = esc(o) + "{mother} " + pat["a2"] + " {daughters}" + esc(cl)
-            s3 = to_string(c, (p1, p2))
+            s3 = to_string(c, (p1, p2), dc_same)
             try:
                 got = C.read_descriptor(s3, arrow=pat["a1"], sub_arrow=pat["a2"], open_=o, close=cl)
             except C.DescriptorError as e:
                 raise Mismatch("C13:unreadable-pattern", f"{s3!r} with {p1!r},{p2!r}: {e}") from e
         if got != want:
             raise Mismatch("C13:tree-pattern", f"{s3!r} with patterns {p1!r}, {p2!r}", want, got)
-        after = to_string(c)
+        after = to_string(c, None, dc_same)
         if after != s:
             raise Mismatch("C13:format-leaked", "default rendering changed after a DescriptorFormat block", s, after)
         classes += ["pattern-" + kind, "brackets-" + pat.get("open", "postfix")]
@@ -136,7 +161,7 @@ def gen_case(draw):
         pat = {"kind": "family", "open": o, "close": cl, "a1": draw(st.sampled_from(arrows)), "a2": draw(st.sampled_from(arrows))}
     elif pk == 2:
         pat = {"kind": "postfix", "a1": draw(st.sampled_from(ARROWS)), "a2": draw(st.sampled_from(ARROWS))}
-    return {"chain": c, "patterns": pat, "dperm": draw(st.permutations(list(range(6))))}
+    return {"chain": c, "patterns": pat, "dperm": draw(st.permutations(list(range(6)))), "ws": draw(st.one_of(st.none(), st.integers(0, 3)))}
 
 
 def replay(case, rec):
